@@ -35,6 +35,8 @@ struct Op {
   int64_t a = 0;     // FIXED: offset; BULK: how many distinct fresh names to load (then the first `slot2` of them again)
   Query q;           // QUERY
   std::string s;     // SET_STATE: new state
+  int64_t adv = 0;   // simulated seconds that pass before this op (the one clock is shared by all tasks and never goes back)
+  int64_t skew = 0;  // if non-zero: the real-time clock is stepped to this offset from the monotonic one before this op (may go back)
 };
 
 struct ConcCase {
